@@ -64,6 +64,9 @@ CONTENT_VARIANTS = {
         ('le-mac', {'line_endings': 'mac'}, REJECT),
         ('le-int', {'line_endings': 5}, REJECT),
         ('le-upper', {'line_endings': 'DOS'}, REJECT),
+        ('le-title', {'line_endings': 'Unix'}, REJECT),
+        ('mimetype-case', {'mimetype': 'Text/Plain'}, REJECT),
+        ('mimetype-upper', {'mimetype': 'TEXT/MARKDOWN'}, REJECT),
         ('le-substr', {'line_endings': 'nix'}, REJECT),
         ('le-empty', {'line_endings': ''}, REJECT),
         ('mimetype-substr', {'mimetype': 'text'}, REJECT),
@@ -87,6 +90,7 @@ CONTENT_VARIANTS = {
         ('meta-str', {'metadata': '{}'}, REJECT),
         ('meta-empty', {'metadata': {}}, REJECT),
         ('format-yaml', {'meta_format': 'yaml'}, REJECT),
+        ('format-upper', {'meta_format': 'JSON'}, REJECT),
         ('format-substr', {'meta_format': 'js'}, REJECT),
         ('format-empty', {'meta_format': ''}, REJECT),
         ('format-none', {'meta_format': None}, REJECT),
@@ -102,6 +106,8 @@ CONTENT_VARIANTS = {
         ('diff-empty', {'content_hex': ''}, REJECT),
         ('diff-bytearray', {'content': ['a']}, REJECT),
         ('type-x', {'diff_type': 'x'}, REJECT),
+        ('type-case', {'diff_type': 'Binary'}, REJECT),
+        ('le-case-diff', {'line_endings': 'Dos'}, REJECT),
         ('type-substr', {'diff_type': 'tex'}, REJECT),
         ('type-empty', {'diff_type': ''}, REJECT),
         ('type-int', {'diff_type': 5}, REJECT),
